@@ -8,7 +8,9 @@ VSF = dict(unit="vsfld_u.c", file="hdf/src/vsfld.c",
 ob("VSfdefine", ["C07", "C20"], entry="h_VSfdefine", enforce="VSfdefine", loops=True, nloops=1, loopcls="A",
    overflow=True, defines=["H4V_ABS_STR", "NUSYM_CAP=11", "NMLEN=1"], cex_unwind=24, timeout=900,
    **dict(VSF, trusted=VSF["trusted"] + ["strcmp abstracted to an arbitrary result, strdup to NULL-or-fresh (proof mode only)"]))
-NM = dict(VSF, file="hdf/src/vg.c", mode="bounded", bound="new name length <= 128 = 2 x VSNAMELENMAX (libc string loops unwound)",
-          unwind=131, cex_unwind=131)
-ob("VSsetname", ["C07", "C20"], entry="h_VSsetname", enforce="VSsetname", **NM)
-ob("VSsetclass", ["C07", "C20"], entry="h_VSsetclass", enforce="VSsetclass", **NM)
+NM = dict(VSF, file="hdf/src/vg.c", mode="bounded")
+for f in ("VSsetname", "VSsetclass"):
+    ob(f, ["C07", "C20"], entry="h_" + f, enforce=f, defines=["NLEN_MAX=72"], unwind=75, cex_unwind=75,
+       bound="new name length <= 72 (limit VSNAMELENMAX = 64; libc string loops unwound)", **NM)
+    ob(f + "_2x", ["C07", "C20"], entry="h_" + f, enforce=f, unwind=131, cex_unwind=131, tier="thorough",
+       bound="new name length <= 128 = 2 x VSNAMELENMAX (libc string loops unwound)", **NM)
